@@ -272,6 +272,9 @@ func runC06(c *Ctx) {
 		"connection state recovery is on —, always runs leaveAll for a connected socket, and Join/Leave address the adapter under the socket's own id (shared with C04-D5)", 5)
 	closedSocketInNoRoom(c, "C06-D6")
 
+	c.Rule("C06-D12", "a closed session adopts nothing (F57, shared with C07-D9 and C17-D7): upgradeTo / finishUpgradeTo swap the transport only after a non-blocking look at closeChan made under the write-held transportMu "+
+		"(close() closes closeChan before it takes transportMu), and the upgrade watcher also waits for closeChan", 3)
+	closedSocketAdoptsNoTransport(c, "C06-D12")
 	c06Round4(c)
 	c.Rule("C06-D11", "a connection that ended with a parse error is really ended (F46, shared with C10-D12): the client closes the Engine.IO socket after reporting the closure", 1)
 	parseErrorClosesConnection(c, "C06-D11")
